@@ -6,9 +6,10 @@ import PsutilModel.Spec.C06Ext
 namespace Psutil.C06
 open Spec
 
-/-- the configuration of the surrounding code for which the theorems hold. `tmapChecksChr` is
-    deliberately NOT pinned: the theorems say what holds for either value. -/
-structure XCfg.Good (x : XCfg) : Prop where
+/-- the configuration of the surrounding code for which the theorems hold, EXCEPT the `S_ISCHR`
+    test of get_terminal_map, which `XCfg.Good` pins on top (the lemmas below say what holds for
+    either value of `tmapChecksChr`) -/
+structure XCfg.GoodBase (x : XCfg) : Prop where
   tmapGlobs : x.tmapGlobs = ["/dev/tty*", "/dev/pts/*"]
   tmapSkipsVanished : x.tmapSkipsVanished = true
   tmapMemoized : x.tmapMemoized = true
@@ -18,6 +19,10 @@ structure XCfg.Good (x : XCfg) : Prop where
   threadsSorts : x.threadsSorts = true
   threadsSkipsVanished : x.threadsSkipsVanished = true
   threadsChecksAlive : x.threadsChecksAlive = true
+
+/-- the configuration of the code as it is (since 9df9f82 only character devices enter the terminal map) -/
+structure XCfg.Good (x : XCfg) : Prop extends XCfg.GoodBase x where
+  tmapChecksChr : x.tmapChecksChr = true
 
 /-! ## terminal map -/
 
@@ -176,7 +181,7 @@ theorem btimeLine_fields (n : Nat) :
   · subst h; exact keyBtime_tokOk
   · subst h; exact ⟨hne, renderDec_noWs n⟩
 
-theorem bootTime_render (x : XCfg) (hg : x.Good) (w : ProcStatW) (hwf : w.WF) :
+theorem bootTime_render (x : XCfg) (hg : x.GoodBase) (w : ProcStatW) (hwf : w.WF) :
     bootTime x (renderProcStat w) = .ok (w.btime : Rat) := by
   unfold bootTime renderProcStat
   have hno10 : ∀ f ∈ w.pre ++ [btimeLine w.btime] ++ w.post ++ [[]], 10 ∉ f := by
